@@ -318,27 +318,8 @@ fn check_raw(actual: &Shape, sels: &[Selection], parent: &str, schema: &Schema, 
     }
 }
 
-pub fn check(ctx: &Ctx<'_>, arts: &[(String, String)], schema: &Schema, stats: &mut ShardStats) -> Vec<(String, String)> {
-    let mut fails = vec![];
-    let m = ctx.program.menu;
-    let mut props = 0;
-    let mut keys = 0;
-    for d in &ctx.program.decls {
-        let Decl::Field { ty, name, set, .. } = d else { continue };
-        let path = format!("{}/{}/param_type.ts", ty.name(), name);
-        let Some((_, src)) = arts.iter().find(|(p, _)| *p == path) else {
-            // a field that nothing reaches may legitimately have no artifacts; C13 covers imports
-            continue;
-        };
-        match alias_shape(src, &format!("{}__{}__param", ty.name(), name)) {
-            Err(e) => fails.push(("param-type:unreadable".into(), format!("{path}: {e}"))),
-            Ok(Shape::Obj(top)) => match top.iter().find(|(k, _)| k == "data") {
-                Some((_, data)) => check_param_set(data, set, *ty, m, schema, &format!("{path}:data"), &mut fails, &mut props),
-                None => fails.push(("param-type:no-data-member".into(), format!("{path}: no `data` member"))),
-            },
-            Ok(other) => fails.push(("param-type:unreadable".into(), format!("{path}: param type is {}", describe(&other)))),
-        }
-    }
+/// (b): every raw_response_type.ts against the operation in the query_text.ts next to it
+pub fn check_raw_responses(arts: &[(String, String)], schema: &Schema, fails: &mut Vec<(String, String)>, keys: &mut u64) {
     for (path, text) in operation_texts(arts) {
         if !path.ends_with("/query_text.ts") {
             continue;
@@ -360,9 +341,33 @@ pub fn check(ctx: &Ctx<'_>, arts: &[(String, String)], schema: &Schema, stats: &
         let alias = format!("{}__{}__raw_response_type", parts[0], parts[1]);
         match alias_shape(src, &alias) {
             Err(e) => fails.push(("raw-response:unreadable".into(), format!("{raw_path}: {e}"))),
-            Ok(s) => check_raw(&s, &op.selections.items, root, schema, &raw_path, &mut fails, &mut keys),
+            Ok(s) => check_raw(&s, &op.selections.items, root, schema, &raw_path, fails, keys),
         }
     }
+}
+
+pub fn check(ctx: &Ctx<'_>, arts: &[(String, String)], schema: &Schema, stats: &mut ShardStats) -> Vec<(String, String)> {
+    let mut fails = vec![];
+    let m = ctx.program.menu;
+    let mut props = 0;
+    let mut keys = 0;
+    for d in &ctx.program.decls {
+        let Decl::Field { ty, name, set, .. } = d else { continue };
+        let path = format!("{}/{}/param_type.ts", ty.name(), name);
+        let Some((_, src)) = arts.iter().find(|(p, _)| *p == path) else {
+            // a field that nothing reaches may legitimately have no artifacts; C13 covers imports
+            continue;
+        };
+        match alias_shape(src, &format!("{}__{}__param", ty.name(), name)) {
+            Err(e) => fails.push(("param-type:unreadable".into(), format!("{path}: {e}"))),
+            Ok(Shape::Obj(top)) => match top.iter().find(|(k, _)| k == "data") {
+                Some((_, data)) => check_param_set(data, set, *ty, m, schema, &format!("{path}:data"), &mut fails, &mut props),
+                None => fails.push(("param-type:no-data-member".into(), format!("{path}: no `data` member"))),
+            },
+            Ok(other) => fails.push(("param-type:unreadable".into(), format!("{path}: param type is {}", describe(&other)))),
+        }
+    }
+    check_raw_responses(arts, schema, &mut fails, &mut keys);
     *stats.extra.entry("param_properties".into()).or_default() += props;
     *stats.extra.entry("raw_response_keys".into()).or_default() += keys;
     let _ = Kind::Object;
@@ -394,6 +399,17 @@ pub fn main(args: &Args) -> i32 {
         sweep::worker(sh, oracle);
         return 0;
     }
+    let demo_check = |d: &crate::demos::Demo| {
+        let (mut fails, mut keys) = (vec![], 0);
+        check_raw_responses(&d.arts, &d.schema, &mut fails, &mut keys);
+        if keys == 0 {
+            machinery_error(&format!("demo {}: no raw response key checked", d.name));
+        }
+        fails
+    };
+    if let Some(code) = crate::demos::replay_if_demo(args, &demo_check) {
+        return code;
+    }
     if args.replay.is_some() {
         return sweep::replay(args);
     }
@@ -411,11 +427,16 @@ pub fn main(args: &Args) -> i32 {
     for v in res.violations {
         verdict.add(v);
     }
+    let (demo_violations, demo_artifacts) = crate::demos::violations(&demo_check);
+    for v in demo_violations {
+        verdict.add(v);
+    }
     verdict.violations.sort_by_key(|v| v.what.len());
     let (code, n_new, known) = verdict.conclude("comp_mc/c27");
     ev.violations = n_new as i64;
     let props = res.stats.extra.get("param_properties").copied().unwrap_or(0);
     let keys = res.stats.extra.get("raw_response_keys").copied().unwrap_or(0);
+    ev.set("demo_projects", json!(crate::demos::DEMOS)).set("demo_artifacts", demo_artifacts);
     ev.set("evaluations", res.stats.programs)
         .set("distinct_nontrivial", res.stats.accepted)
         .set("rule", "every accepted program of the stated families: (a) param_type.ts of every structurally known client field vs its selection set and the schema (one property per selection, named by alias or name; nullable iff nullable and list iff list at every level for server fields; object selections recursively), (b) raw_response_type.ts of every entrypoint vs the operation text (response keys per inline-fragment alternative, nesting, list levels); types parsed with swc_ecma_parser, operations with graphql-syntax")
